@@ -241,7 +241,9 @@ Definition sys_agrees (sysblock : bytes -> bool) (l : list ksys) : bool :=
 
 (* ------------------------------------------------ disk_usage *)
 (* property text: used = total - free-for-root, free = space available to unprivileged users,
-   percent = used / (used + free) * 100  (0 when used + free = 0) *)
+   percent = used / (used + free) * 100  (0 when used + free = 0).
+   statvfs(3): f_blocks, f_bfree, f_bavail are counted in units of f_frsize; f_bsize is only the
+   preferred I/O size and must not enter the result *)
 Definition spec_usage (st : statvfs) : usage :=
   let total := f_blocks st * f_frsize st in
   let used := total - f_bfree st * f_frsize st in
